@@ -133,6 +133,19 @@ def main():
     adm = src("administrative_record.rs")
     rb = fn_body(adm, "refbundle") or ""
     txt("refbundle_formats", "|".join(re.findall(r'format!\(\s*"([^"]*)"', rb)))
+    # ---- C08: the three decisions of the forwarding update
+    ue = fn_body(bundle, "update_extensions") or ""
+    m = re.search(r"Some\(\(hc_limit, hc_count\)\) => ([^,]*),", ue)
+    txt("upd_hop_rule", re.sub(r"\s+", "", m.group(1)) if m else None)
+    m = re.search(r"let ba_new = ([^;]*);", ue)
+    txt("upd_age_sum", re.sub(r"\s+", "", m.group(1)) if m else None)
+    m = re.search(r"if (ba_new [^{]*)\{", ue)
+    txt("upd_age_rule", re.sub(r"\s+", "", m.group(1)) if m else None)
+    le = fn_body(primary, "is_lifetime_exceeded") or ""
+    m = re.search(r";\s*([^;{}]*<=[^;{}]*)\}\s*$", le)
+    txt("upd_expiry_rule", re.sub(r"\s+", "", m.group(1)) if m else None)
+    hi = fn_body(canonical, "hop_count_increase") or ""
+    txt("upd_hop_increment", "saturating_add(1)" if "hc_count.saturating_add(1)" in re.sub(r"\s+", "", hi) else None)
     # ---- emit
     lines = ["/- GENERATED by tools/extract.py from /repo/src — do not edit. -/", "namespace Bp7.Extracted", ""]
     for name, kind, v in facts:
